@@ -27,6 +27,10 @@ fn main() {
         "C24" => engines::c24::main(&args),
         "C24child" => engines::c24::child_main(),
         "C24taskchild" => engines::c24::task_child_main(),
+        "C02" => engines::c02::main(&args),
+        "C13" => engines::c13::main(&args),
+        "C01" => engines::c01::main(&args),
+        "RTchild" => engines::rt::child_main(),
         "C20" => engines::c20::main(&args),
         "C20child" => engines::c20::child_main(),
         other => {
